@@ -46,6 +46,7 @@ def jobs(tier):
             J("T4-9-10", "T4", [9, 10], flagsets=[0, 3]),
             J("T6-12", "T6", [12], flagsets=[1, 2]),
             J("JPSS-71", "JPSS", [71], flagsets=[0, 3]),
+            J("T8-8-8", "T8", [8, 8], flagsets=[3]),          # two packets through one definition: a parameter whose derived TYPE varies per packet
         ] + [J(f"MIX{k}-12", f"MIX{k}", [12], flagsets=[1, 2], split=4) for k in range(17)]
     out = []
     for t, clean in (("T1", 19), ("T2", 18), ("T3", 16), ("T5", 9), ("T6", 12)):
@@ -55,6 +56,8 @@ def jobs(tier):
             J("T6-12-12", "T6", [12, 12], flagsets=[1, 2]), J("JPSS-71", "JPSS", [71]), J("JPSS-71-71", "JPSS", [71, 71], flagsets=[3]),
             J("JPSSC-71", "JPSS_CONTRIVED", [71])]
     out += [J(f"MIX{k}-{n}", f"MIX{k}", [n], split=4) for k in range(102) for n in ((12,) if k % 3 else (11, 12, 13))]
+    out += [J("T8-8-8", "T8", [8, 8]), J("T8-8-9-8", "T8", [8, 9, 8], flagsets=[3]), J("B|lookup|0-14-14", "B|lookup|0", [14, 14], flagsets=[1]),
+            J("MIX17-12-12", "MIX17", [12, 12], flagsets=[3]), J("MIX12-12-12", "MIX12", [12, 12], flagsets=[3])]
     return out
 
 
